@@ -4,7 +4,7 @@ from qv.core import AnalysisBroken
 from qv.esp import Engine, Env, Outcome, TOP, fs
 from qv.lib import QHooks
 from rules import qsend
-from rules.qsend import attach
+from rules.qsend import attach, g1
 
 
 class HeapHooks(QHooks):
@@ -242,6 +242,69 @@ def run(ctx):
         okp = bool(st) and qsend.static_role(pa, st[-1], st[-1].args[0], prog) == 'chan'
     r4.check(okp, 'pqadd-reads-the-time-back-from-the-channel-file-mtime', pa.unit + ':pqadd', 'pechan[c].dt = st.st_mtime after stat of the channel file')
     r4.expect_min(7)
+
+    # pqfinish: every queued entry's time is written back to its channel file (that is all a restart has)
+    pf = prog.fn('pqfinish', 'qmail-send.c')
+
+    class PF(QHooks):
+        Q = {'G:pqchan[0]': [(7100, 31), (6900, 32), (7000, 33)], 'G:pqchan[1]': [(6500, 41)]}
+
+        def __init__(self):
+            self.stamped = []
+
+        def tracked_global(self, path):
+            return True
+
+        def precise_arith(self, path):
+            return True
+
+        def _q(self, E, args):
+            v = args[0]
+            v = next(iter(v)) if v is not TOP and len(v) == 1 else None
+            return v[1] if isinstance(v, tuple) and v[0] == '&' and v[1] in self.Q else None
+
+        def prim_prioq_min(self, E, x, args):
+            q = self._q(E, args)
+            pe = next(iter(args[1])) if args[1] is not TOP and len(args[1]) == 1 else None
+            if q is None or not (isinstance(pe, tuple) and pe[0] == '&'):
+                raise AnalysisBroken('pqfinish: prioq_min() on an unknown queue')
+            k = g1(E, '$k:' + q, 0)
+            if k >= len(self.Q[q]):
+                return [Outcome(ret=fs(0))]
+            dt, idv = self.Q[q][k]
+            return [Outcome(ret=fs(1), sets={pe[1] + '.dt': fs(dt), pe[1] + '.id': fs(idv)})]
+
+        def prim_prioq_delmin(self, E, x, args):
+            q = self._q(E, args)
+            return [Outcome(ret=TOP, sets={'$k:' + q: fs(g1(E, '$k:' + q, 0) + 1)} if q else {})]
+
+        def prim_fnmake_chanaddr(self, E, x, args):
+            return [Outcome(ret=TOP, sets={'$fn': fs((next(iter(args[0])) if args[0] is not TOP and len(args[0]) == 1 else None, next(iter(args[1])) if args[1] is not TOP and len(args[1]) == 1 else None))})]
+
+        def prim_utimes(self, E, x, args):
+            tp = next(iter(args[1])) if args[1] is not TOP and len(args[1]) == 1 else None
+            base = tp[1][:-3] if isinstance(tp, tuple) and tp[0] == '&' and tp[1].endswith('[0]') else (tp[1] if isinstance(tp, tuple) else None)
+            t1 = g1(E, '%s[1].tv_sec' % base) if base else None
+            self.stamped.append((g1(E, '$fn'), t1))
+            return [Outcome(ret=fs(0)), Outcome(ret=fs(-1))]
+
+        prim_utime = prim_utimes
+
+        def _n(self, E, x, args):
+            return [Outcome(ret=TOP)]
+
+        prim_log3 = prim_log1 = _n
+    badf = None
+    for recent in (6000, 7050, 9000):
+        PH = PF()
+        e_ = Engine(db, prog, PH)
+        e_.run(pf, {'G:recent': fs(recent)})
+        rep.count_states(e_.states, e_.transitions)
+        want = {((idv, c_), dt) for c_, q in ((0, 'G:pqchan[0]'), (1, 'G:pqchan[1]')) for dt, idv in PF.Q[q]}
+        got = set(PH.stamped)
+        if got != want and badf is None:
+            badf = 'at time %d pqfinish writes back %s; queued (message, channel) -> time: %s: an entry whose time is not written keeps the older time of its file and is retried at the wrong time after the restart (an ALRM is forgotten)' % (recent, sorted(got, key=str), sorted(want, key=str))
+    r4.check(badf is None, 'pqfinish-writes-back-the-time-of-every-queued-entry', pf.unit + ':pqfinish', badf or '')
 
     r6 = rep.rule('C15.6-wake-up-for-retries', 'R-TABLE', 'pass_selprep over every combination of open passes, job and delivery slots and queue contents: the daemon asks to be woken at the earliest due time of every channel queue it can serve (a retry whose time has passed is not slept over)')
     attach(r6, qsend.selprep_tables(db, names=('pass_selprep',)), prefixes=['selprep:'])
